@@ -133,9 +133,26 @@ impl Campaign for WriterCampaign {
             Seam::Mlw | Seam::MlwTiny => case.term.as_bytes().to_vec(),
             _ => b"\n".to_vec(),
         };
-        if term.is_empty() {
+        if term.is_empty() && self.focus != Rule::Panic {
             // the property is vacuous with an empty terminator (C20 covers it)
             return Outcome::ok();
+        }
+        if term.is_empty() {
+            // C20: only panics are judged
+            let trace = seams::run_mlw(case);
+            let p = trace.iter().find_map(|t| match &t.result {
+                oracle::OpResult::Panicked(p) => Some(p.clone()),
+                _ => None,
+            });
+            return Outcome {
+                verdict: match p {
+                    None => Ok(()),
+                    Some(p) => Err(format!("call panicked: {}", p)),
+                },
+                nontrivial: true,
+                fingerprint: util::hash_json(case),
+                classes: vec!["empty terminator"],
+            };
         }
         let (trace, info) = match self.seam {
             Seam::Mlw | Seam::MlwTiny => (
